@@ -1191,6 +1191,52 @@ func mpscHuge(init, max uint32) (violation string) {
 // increasing values to its own keys, so the Replacement notifications of each key must arrive in
 // increasing order (events of one producer are consumed in the order it submitted them) and every
 // overwritten value must be reported exactly once (no write is forgotten).
+// cacheFullThenOne is the cache-level "accepted on a retry" scenario of C16, single goroutine, executor
+// that runs its tasks in the caller: the body of a Coldest/Hottest iteration (which holds the eviction
+// lock) issues exactly as many writes as the write buffer holds, a variable number of further writes
+// follows the iteration. The first of them is refused, requests a drain and is accepted on its retry.
+// After the last write returned - and without a further call - every accepted event must have been
+// handed to the policies: write buffer empty, status idle, bound respected, every replaced value notified.
+func cacheFullThenOne(seed uint64) (violation string) {
+	r := core.NewRng(seed)
+	capEvents := 128 * roundUpPow2(procsAtStart)
+	var notified atomic.Int64
+	o := &otter.Options[int, int]{
+		MaximumSize: capEvents/2 + r.Intn(capEvents),
+		Executor:    func(fn func()) { fn() },
+		OnDeletion:  func(e otter.DeletionEvent[int, int]) { notified.Add(1) },
+	}
+	c, err := otter.New(o)
+	if err != nil {
+		return "cannot build: " + err.Error()
+	}
+	defer c.StopAllGoroutines()
+	c.Set(-1, -1)
+	it := c.Coldest()
+	if r.Chance(1, 2) {
+		it = c.Hottest()
+	}
+	inBody := capEvents - r.Intn(3) // the buffer ends up full, or one or two events short of full
+	for range it {
+		for i := 0; i < inBody; i++ {
+			c.Set(i, i)
+		}
+		break
+	}
+	after := 1 + r.Intn(4)
+	for i := 0; i < after; i++ {
+		c.Set(inBody+i, 1)
+	}
+	s := c.VerifAudit()
+	if s.WriteBufferSize != 0 || s.DrainStatus != 0 {
+		return fmt.Sprintf("%d writes were issued from the body of an iteration (the write buffer holds %d events), %d more after it; all calls returned (executor runs in the caller): %d accepted write event(s) were never handed to the policies (drain status %d)", inBody, capEvents, after, s.WriteBufferSize, s.DrainStatus)
+	}
+	if n := c.EstimatedSize(); n > int(c.GetMaximum()) {
+		return fmt.Sprintf("after %d writes from an iteration body and %d more, the cache holds %d entries, its maximum is %d and no maintenance is pending", inBody, after, n, c.GetMaximum())
+	}
+	return ""
+}
+
 func cacheOrder(seed uint64) (violation string, writes, notifications int64) {
 	r := core.NewRng(seed)
 	var mu sync.Mutex
@@ -1374,6 +1420,10 @@ func RunC16(col *core.Collector, tier, variant string, seed uint64, shard, nshar
 			cs := core.Derive(seed, core.StrLabel("C16cache"), uint64(i))
 			wd.Arm()
 			v, w, nn := cacheOrder(cs)
+			if v == "" {
+				v = cacheFullThenOne(cs)
+				col.Count("cache_level.full_buffer_then_retried_offer", 1)
+			}
 			wd.Disarm()
 			col.Eval(1)
 			col.Count("cache_level.writes", w)
